@@ -2454,6 +2454,14 @@ def r14(cx):
                         guarded = True
             cx.site('%s: search_path(%s) at %s behind the no-slash edge: %s' % (body.fn, ', '.join(str(x) for x in name_src[1:]), body.loc(t), guarded))
             if not guarded:
+                # a slash test written in a shape this rule does not read (find('/').is_none(), bytes().any(..), split_once) gives no
+                # verdict instead of a report
+                other = [t2 for b2, t2 in body.calls()
+                         if re.search(r'::(find|rfind|split_once|rsplit_once|any|all|position|rposition|memchr|starts_with|matches)(::<.*>)?$', pp.callee(t2).split(' [')[0])
+                         and any("'/'" in str(x) or '"/"' in str(x) or 'b\'/\'' in str(x) or '47' == str(x).replace('const ', '').replace('_u8', '')
+                                 for x in Q.arg_names(body, du, t2)[1:])]
+                cx.require(not other, '%s: the name is tested for a slash in a shape this rule does not read (%s): no verdict'
+                           % (body.fn, pp.callee(other[0]) if other else ''))
                 cx.violation(body.root, 'path-search-for-slash-name', 'search_path is reached without the test that the name contains no '
                              'slash: a relative pathname such as `sub/tool` or `./tool` is joined to every $PATH directory and a namesake '
                              'found there runs instead of the file named (or instead of status 127 when it does not exist)', loc=body.loc(t))
